@@ -35,19 +35,21 @@ def _with_private_helpers(prog: Program, fi: FuncInfo, ci) -> List[FuncInfo]:
 
 
 def unit_creator(prog: Program) -> FuncInfo:
-    """The metaclass method through which new_unit creates units (today: QuantityMeta._make_unit):
-    the call in the final return of QuantityMeta.new_unit."""
+    """The metaclass method through which new_unit creates units (today: QuantityMeta._make_unit): the function,
+    reached from QuantityMeta.new_unit through calls on the class, that allocates the unit object (a raw
+    `__new__` call) - wherever in new_unit the call sits."""
     nu = prog.method("QuantityMeta", "new_unit")
     qm = prog.cls("QuantityMeta")
-    cand = None
-    for st in ast.walk(nu.node):
-        if isinstance(st, ast.Return) and isinstance(st.value, ast.Call) and isinstance(st.value.func, ast.Attribute):
-            f = prog.lookup(qm, st.value.func.attr)
-            if f is not None:
-                cand = f
-    if cand is None:
-        raise AnalysisError("anchor vanished: unit creation helper called from QuantityMeta.new_unit")
-    return cand
+
+    def allocates(f: FuncInfo) -> bool:
+        return any(isinstance(n.func, ast.Attribute) and n.func.attr == "__new__" for n in _calls(f))
+    reach = _with_private_helpers(prog, nu, qm)
+    for f in reach[1:]:
+        if allocates(f):
+            return f
+    if allocates(nu):
+        return nu
+    raise AnalysisError("anchor vanished: unit creation helper called from QuantityMeta.new_unit")
 
 
 def ref_unit_creator(prog: Program) -> FuncInfo:
